@@ -5,6 +5,7 @@ package bitstream
 
 //@ ghost io.Writer out bytes
 //@ ghost io.Writer failed bool
+//@ ghost DefaultOutputBitStream obase int
 
 //@ iface io.Writer Write(p) (n, err)
 //@   ensures 0 <= n && n <= len(p)
@@ -36,7 +37,7 @@ package bitstream
 //@   ensures this.repFlush() && (result == nil ==> this.repBuf())
 //@   modifies this.position, this.written, this.os.out, this.os.failed
 
-//@ spec (this *DefaultOutputBitStream) synced() = this.os.failed || this.written == 8*len(this.os.out)
+//@ spec (this *DefaultOutputBitStream) synced() = this.os.failed || (this.written == 8*(len(this.os.out) - this.obase) && this.obase >= 0)
 //@ spec (this *DefaultOutputBitStream) nbytes() = len(this.os.out) + this.position
 //@ spec (this *DefaultOutputBitStream) byteAt(k int) = k < len(this.os.out) ? this.os.out[k] : this.buffer[k - len(this.os.out)]
 //@ spec (this *DefaultOutputBitStream) nbits() = this.written + 8*this.position + 64 - this.availBits
@@ -116,7 +117,7 @@ package bitstream
 //@   ensures old(this.closed) ==> result == nil && this.repClosed() && this.written == old(this.written) && len(this.os.out) == old(len(this.os.out))    #idempotent
 //@   ensures result == nil ==> this.repClosed()                                                #closed
 //@   ensures result == nil ==> this.nbits() == old(this.nbits())                               #written-unchanged
-//@   ensures result == nil && !old(this.closed) && !this.os.failed ==> 8*len(this.os.out) >= old(this.nbits()) && 8*len(this.os.out) < old(this.nbits()) + 8       #all-bytes-reached-sink
+//@   ensures result == nil && !old(this.closed) && !this.os.failed ==> 8*(len(this.os.out) - this.obase) >= old(this.nbits()) && 8*(len(this.os.out) - this.obase) < old(this.nbits()) + 8       #all-bytes-reached-sink
 //@   ensures result != nil ==> this.repOpen() && this.availBits == old(this.availBits) && this.position == old(this.position) && this.current == old(this.current) && this.os.failed    #restored
 //@   ensures result != nil ==> this.nbits() == old(this.nbits()) && this.written == old(this.written)     #restored-counter
 //@   modifies this.closed, this.current, this.availBits, this.position, this.written, this.buffer, this.buffer[*], this.os.out, this.os.failed
@@ -163,6 +164,7 @@ package bitstream
 //@ -- ------------------------------------------------------------------ input side
 //@ ghost io.Reader src bytes
 //@ ghost io.Reader cur int
+//@ ghost DefaultInputBitStream ibase int
 
 //@ iface io.Reader Read(p) (n, err)
 //@   ensures 0 <= n && n <= len(p)
@@ -176,7 +178,7 @@ package bitstream
 //@ spec (this *DefaultInputBitStream) unread() = this.maxPosition >= this.position ? this.maxPosition + 1 - this.position : 0
 //@ spec (this *DefaultInputBitStream) base() = this.is.cur - (this.maxPosition + 1)
 //@ spec (this *DefaultInputBitStream) rbits() = this.read + 8*this.position - this.availBits
-//@ spec (this *DefaultInputBitStream) repIn() = !this.closed && this.is != nil && 0 - 1 <= this.maxPosition && this.maxPosition < len(this.buffer) && 0 <= this.position && this.position <= len(this.buffer) && this.availBits <= 64 && len(this.buffer) % 8 == 0 && len(this.buffer) >= 1024 && len(this.buffer) <= 1073741824 && 0 <= this.is.cur && this.is.cur <= len(this.is.src) && this.read + 8*this.position == 8*(this.is.cur - this.unread()) && this.availBits <= this.read + 8*this.position && (this.pendingErr != nil ==> this.srcDone()) && (this.position > this.maxPosition + 1 ==> this.srcDone()) && this.read + 8*this.position <= 8*len(this.is.src) && (this.srcDone() || ((this.maxPosition + 1) % 8 == 0 && this.position % 8 == 0))
+//@ spec (this *DefaultInputBitStream) repIn() = !this.closed && this.is != nil && 0 - 1 <= this.maxPosition && this.maxPosition < len(this.buffer) && 0 <= this.position && this.position <= len(this.buffer) && this.availBits <= 64 && len(this.buffer) % 8 == 0 && len(this.buffer) >= 1024 && len(this.buffer) <= 1073741824 && 0 <= this.is.cur && this.is.cur <= len(this.is.src) && this.read + 8*this.position == 8*(this.is.cur - this.ibase - this.unread()) && 0 <= this.ibase && this.availBits <= this.read + 8*this.position && (this.pendingErr != nil ==> this.srcDone()) && (this.position > this.maxPosition + 1 ==> this.srcDone()) && this.read + 8*this.position <= 8*(len(this.is.src) - this.ibase) && (this.srcDone() || ((this.maxPosition + 1) % 8 == 0 && this.position % 8 == 0))
 //@ spec (this *DefaultInputBitStream) bufOK() = forall q :: off(this.buffer) + this.position <= q && q <= off(this.buffer) + this.maxPosition ==> raw(this.buffer, q) == this.is.src[this.base() + q - off(this.buffer)]
 //@ spec (this *DefaultInputBitStream) repInClosed() = this.closed && this.availBits == 0 && this.maxPosition == 0 - 1 && 0 <= this.position && this.position <= 1073741824 && this.is != nil
 //@ spec (this *DefaultInputBitStream) rbound() = 0 - 4611686018427387904 <= this.read && this.read <= 4611686018427387904
@@ -246,7 +248,7 @@ package bitstream
 //@   assume this.rbound()
 //@   ensures !old(this.closed) && this.repIn()                                  #rep
 //@   ensures this.rbits() == old(this.rbits()) + 1                              #counter
-//@   ensures this.rbits() <= 8*len(this.is.src)                                 #within-source
+//@   ensures this.rbits() <= 8*(len(this.is.src) - this.ibase)                                 #within-source
 //@   ensures result == 0 || result == 1                                         #bit
 //@   panics old(this.closed) || this.srcDone()                                 #panics
 //@   panics !old(this.closed) ==> this.repIn() && this.rbits() == old(this.rbits())   #panic-state
@@ -262,7 +264,7 @@ package bitstream
 //@   decreases 2*count + (this.availBits == 0 ? 1 : 0)
 //@   ensures !old(this.closed) && this.repIn() && 1 <= count && count <= 64    #rep
 //@   ensures this.rbits() == old(this.rbits()) + count                          #counter
-//@   ensures this.rbits() <= 8*len(this.is.src)                                 #within-source
+//@   ensures this.rbits() <= 8*(len(this.is.src) - this.ibase)                                 #within-source
 //@   panics old(this.closed) || this.srcDone() || count == 0 || count > 64     #panics
 //@   panics !old(this.closed) ==> this.repIn() && old(this.rbits()) <= this.rbits() && this.rbits() <= old(this.rbits()) + count   #panic-state
 //@   panics old(this.closed) ==> this.repInClosed()
@@ -277,7 +279,7 @@ package bitstream
 //@   ensures old(this.closed) ==> !result0 && result1 != nil
 //@   ensures !old(this.closed) ==> this.repIn() && this.rbits() == old(this.rbits())      #no-consumption
 //@   ensures result0 <==> result1 == nil                                                  #consistent
-//@   ensures result0 ==> this.rbits() < 8*len(this.is.src)                                #true-means-data
+//@   ensures result0 ==> this.rbits() < 8*(len(this.is.src) - this.ibase)                                #true-means-data
 //@   ensures !result0 && !old(this.closed) ==> this.srcDone()                            #false-means-done
 //@   modifies this.read, this.position, this.maxPosition, this.pendingErr, this.buffer[*], this.is.cur
 
@@ -300,7 +302,7 @@ package bitstream
 //@   assume this.rbound()
 //@   ensures !old(this.closed) && this.repIn() && result == count               #rep
 //@   ensures this.rbits() == old(this.rbits()) + count                          #counter
-//@   ensures this.rbits() <= 8*len(this.is.src)                                 #within-source
+//@   ensures this.rbits() <= 8*(len(this.is.src) - this.ibase)                                 #within-source
 //@   panics old(this.closed) || this.srcDone()                                  #panics
 //@   panics old(this.closed) ==> this.repInClosed() && this.read == old(this.read) && this.position == old(this.position)     #closed-reads-nothing
 //@   panics !old(this.closed) ==> this.repIn()                                  #panic-state
@@ -320,3 +322,22 @@ package bitstream
 //@   loop 5 invariant this.repIn() && 0 <= remaining && remaining <= count && 8*start == count - remaining && start >= 0 && this.rbits() == old(this.rbits()) + count - remaining
 //@   loop 5 assume this.rbound()
 //@   loop 5 decreases remaining
+
+//@ func NewDefaultOutputBitStream
+//@   mode int
+//@   props C14 C17
+//@   ensures result1 == nil <==> stream != nil && 1024 <= bufferSize && bufferSize <= 536870912 && bufferSize % 8 == 0     #accepts
+//@   ensures result1 != nil ==> result0 == nil
+//@   ensures result1 == nil ==> result0 != nil && fresh(result0) && result0.repOpen() && result0.availBits == 64 && result0.position == 0 && result0.written == 0 && result0.current == 0 && result0.os == stream && len(result0.buffer) == bufferSize && fresh(result0.buffer)    #initial-state
+//@   ghostdef result1 == nil ==> result0.obase == len(stream.out)
+//@   modifies nothing
+
+//@ func NewDefaultInputBitStream
+//@   mode int
+//@   props C14 C17 C06
+//@   assume stream != nil ==> 0 <= stream.cur && stream.cur <= len(stream.src)
+//@   ensures result1 == nil <==> stream != nil && 1024 <= bufferSize && bufferSize <= 536870912 && bufferSize % 8 == 0     #accepts
+//@   ensures result1 != nil ==> result0 == nil
+//@   ghostdef result1 == nil ==> result0.ibase == stream.cur
+//@   ensures result1 == nil ==> result0 != nil && fresh(result0) && result0.availBits == 0 && result0.position == 0 && result0.maxPosition == 0 - 1 && result0.read == 0 && result0.is == stream && result0.repIn() && len(result0.buffer) == bufferSize && fresh(result0.buffer) && !result0.closed && result0.pendingErr == nil   #initial-state
+//@   modifies nothing
